@@ -171,6 +171,11 @@ func buildPay() *World {
 				t.AltSig = []int{1}
 				return t
 			}(),
+			// the size limits of payload (10000 bytes) and service data (128 bytes)
+			func() Tx { t := good; t.Name = "A send with a 10000-byte payload (the limit)"; t.Payload = make([]byte, 10000); return t }(),
+			func() Tx { t := good; t.Name = "A send with a 10001-byte payload"; t.Payload = make([]byte, 10001); return t }(),
+			func() Tx { t := good; t.Name = "A send with 128 bytes of service data (the limit)"; t.Service = make([]byte, 128); return t }(),
+			func() Tx { t := good; t.Name = "A send with 129 bytes of service data"; t.Service = make([]byte, 129); return t }(),
 		}
 		// "C uses B's proof": the proof was made for B's address
 		for i := range w.Menu {
